@@ -10,6 +10,7 @@ pub fn run(ctx: &Ctx) -> i32 {
         return match read_replay(path).and_then(|rf| match rf.engine.as_str() {
             "addrsort" => replay_one(ctx, &SortEngine, &rf),
             "addrsort-e2e" => replay_one(ctx, &E2eEngine, &rf),
+            "addrsort-port" => replay_one(ctx, &PortEngine, &rf),
             other => Err(format!("unknown engine {other}")),
         }) {
             Ok(c) => c,
@@ -32,6 +33,9 @@ pub fn run(ctx: &Ctx) -> i32 {
     // end-to-end through TcpTransport on loopback (real time, failing attempts are refused at once)
     let e2e_ctx = Ctx { threads: 4, ..ctx.clone() };
     total.merge(run_generated(&e2e_ctx, &E2eEngine, "tcp-loopback", e2e_strategy, ctx.cases(320, 4000), 60));
+    // the port of the request URI (explicit or the scheme's default) reaches the socket, through
+    // TcpTransport and SimpleTcpTransport, whatever port the resolver's answer carries
+    total.merge(run_generated(&e2e_ctx, &PortEngine, "uri-port", port_strategy, ctx.cases(240, 4000), 40));
     finish(
         ctx,
         started,
